@@ -366,13 +366,11 @@ func fallbackSweepReplayer(prop string, ob *Obligation, cfg string, dir string) 
 	bs, _ := os.ReadFile("/verif/oracle/batch_sweep_test.go.tmpl")
 	extraPath := filepath.Join(dir, "zz_verif_batchtypes_test.go")
 	src := string(bs)
-	if i := strings.Index(src, "type swEntry struct"); i > 0 {
+	// keep the stream type and the entry pool, drop the sweep itself (and the imports only it uses)
+	if i := strings.Index(src, "func TestVerifBatchSweep("); i > 0 {
 		src = src[:i]
 	}
-	src = strings.Replace(src, "\t\"bytes\"\n", "", 1)
 	src = strings.Replace(src, "\t\"crypto\"\n", "", 1)
-	src = strings.Replace(src, "\t\"fmt\"\n", "", 1)
-	src = strings.Replace(src, "\t\"math/big\"\n", "", 1)
 	src = strings.Replace(src, "\t\"testing\"\n", "", 1)
 	os.WriteFile(extraPath, []byte(src), 0o644)
 	ok, out := sweepReplayExtra("fallback_sweep_test.go.tmpl", "TestVerifFallbackSweep", "", cfg, dir, []string{"-coverprofile=" + cover}, map[string]string{filepath.Join(repoDir, "zz_verif_batchtypes_test.go"): extraPath})
